@@ -121,6 +121,16 @@ Section WithMac.
   Definition helper_check (h : helper) (rs : list record) (received : bytes) : bool :=
     check_hmac (shared_secret h) (last_nonce h) rs received.
 
+  (** vls-util ExternalPersistWithHelper::init_state — the start-up read of vlsd in LSS mode, whose
+      result goes into put_batch_unlogged: new_nonce; get("", nonce); the reply (records, tag) is
+      accepted iff [check_hmac] verifies the tag for exactly the returned list under that nonce —
+      for every list, the empty one included (assert!(success)); only then do the records enter
+      the local state.  PrivClient::get applies the same rule to the reply tag before it opens the
+      values. *)
+  Definition init_state (secret nonce : bytes) (reply_rs : list record) (reply_tag : bytes)
+    : option (list record) :=
+    if check_hmac secret nonce reply_rs reply_tag then Some reply_rs else None.
+
   (** lightning-storage-server util *)
   Definition prepare_value_for_put (secret key : bytes) (ver : N) (val : bytes) : bytes :=
     val ++ value_tag secret key ver val.
